@@ -130,6 +130,7 @@ func (v *list_[V]) GetValues(first int, last int) Sequential[V] {
 // Expandable
 
 func (v *list_[V]) InsertValue(slot uint, value V) {
+	v.validateSlot(slot)
 
 	// Create a new larger array.
 	var size = uint(v.GetSize() + 1)
@@ -154,6 +155,10 @@ func (v *list_[V]) InsertValue(slot uint, value V) {
 }
 
 func (v *list_[V]) InsertValues(slot uint, values Sequential[V]) {
+	v.validateSlot(slot)
+	if values.IsEmpty() {
+		return // There are no values to insert.
+	}
 
 	// Create a new larger array.
 	var size = uint(v.GetSize() + values.GetSize())
@@ -393,6 +398,20 @@ func (v *list_[V]) String() string {
 }
 
 // Private
+
+// This private instance method makes sure that the specified slot lies between
+// two values in this list or at one of its ends:
+//
+//	[0..size]
+func (v *list_[V]) validateSlot(slot uint) {
+	var size = uint(v.GetSize())
+	if slot > size {
+		panic(fmt.Sprintf(
+			"The specified slot is outside the allowed range [0..%v]: %v",
+			size,
+			slot))
+	}
+}
 
 // This private instance method normalizes the specified relative index.  The
 // following transformation is performed:
